@@ -13,6 +13,7 @@ import (
 type cfg04 struct {
 	writers []writer
 	subs    []subSpec
+	reverse bool // default scheduler prefers the newest thread
 }
 
 var initial = map[string][]string{"t1": {"a/b", "x"}, "t2": {"a/b"}}
@@ -80,6 +81,16 @@ func configs04(tier string) []xplore.Config {
 	// Reset regenerates a dozen metadata leaves and dominates the cost: one
 	// deviation less for scripts containing it in the quick tier; the thorough
 	// tier gives the cheap scripts one deviation more.
+	// every program also under the reversed default scheduler
+	n := len(out)
+	for i := 0; i < n; i++ {
+		c := out[i]
+		d := c.Data.(cfg04)
+		d.reverse = true
+		c.Data = d
+		c.Name += " [newest-first]"
+		out = append(out, c)
+	}
 	for i := range out {
 		hasReset := strings.Contains(out[i].Name, "reset")
 		switch {
@@ -119,7 +130,7 @@ func touched(ws []writer, t, p string) bool {
 func run04(cfg xplore.Config, ch vrt.Chooser, trace bool) (xplore.Outcome, *vrt.Result) {
 	d := cfg.Data.(cfg04)
 	var out xplore.Outcome
-	res := vrt.Run(ch, vrt.Options{Trace: trace}, func() {
+	res := vrt.Run(ch, vrt.Options{Trace: trace, Reverse: d.reverse}, func() {
 		w := newWorld([]string{"t1", "t2"})
 		setupInitial(w)
 		w.wdone = make([]bool, len(d.writers))
